@@ -36,7 +36,10 @@ def step (s : St) (f : List String) : St × String :=
         requestURI := t, url := { scheme := "http", host := "@" ++ be }, host := host, remoteAddr := peer,
         tls := Driver.kvNat f "tls" 0 = 1, header := hdr, bodyLen := n }
       -- the Go server has parsed the target with the same function before any handler runs
-      if (parseRequestURI t).isNone then some "400 be=-" else
+      match parseRequestURI t with
+      | none => some "400 be=-"
+      | some pu =>
+      let req := { req with host := serverHost pu host }
       match serve { passHostHeader := s.pass } req with
       | none => some "500 be=-"
       | some w =>
